@@ -749,7 +749,8 @@ func waitScDeadlineChange(sd *waitSide, seq string, n int) func(*waitEnv, *waitR
 		e.logf("deadline %s -> %dms", seq, dl.Sub(e.t0).Milliseconds())
 		keyMissing, keyEarly := sd.dlKey(seq), "timeout-before-deadline:"+sd.kind
 		if n > 1 {
-			// one token for several callers: one of them may keep the timer of the replaced deadline
+			// a deadline change must reach EVERY blocked caller (the setters broadcast it): a caller that
+			// keeps the timer of the replaced deadline returns late (earlier deadline) or early (later one)
 			keyMissing, keyEarly = "deadline-change-multi-waiter:late:"+sd.kind, "deadline-change-multi-waiter:early:"+sd.kind
 		}
 		if sd.kind == "Accept" && n == 1 {
@@ -763,8 +764,8 @@ func waitScDeadlineChange(sd *waitSide, seq string, n int) func(*waitEnv, *waitR
 	}
 }
 
-// deadline cleared while blocked: no timeout at the old deadline (for any of the n parked callers:
-// the one that gets the wake-up token of the setter AND the ones whose timer still runs); the
+// deadline cleared while blocked: no timeout at the old deadline for any of the n parked callers
+// (the setter's broadcast reaches all of them; a timer that still fires is re-validated); the
 // calls still wake on data
 func waitScCleared(sd *waitSide, n int) func(*waitEnv, *waitResult, *waitScenario) {
 	return func(e *waitEnv, r *waitResult, sc *waitScenario) {
@@ -803,6 +804,36 @@ func waitScCleared(sd *waitSide, n int) func(*waitEnv, *waitResult, *waitScenari
 			return
 		}
 		waitExpectAll(e, r, sd, calls, sd.okClass, time.Time{}, time.Now().Add(waitMargin), "lost-wakeup-after-cleared-deadline:"+sd.kind, "", "what the call waits for became possible after its deadline was cleared")
+	}
+}
+
+// SetDeadline (both directions) while a call of ONE direction is blocked and the two deadlines
+// differ: the OTHER direction's deadline was set on its own (a short one, long expired when
+// SetDeadline is called: old other < t), this direction has no deadline (far = false) or a
+// distant one (far = true).  The blocked call must return a timeout at t.  A setter that decides
+// the wake-up of both directions from one of the old deadlines leaves the call parked (no timer)
+// or on its distant timer.
+func waitScSetDeadlineOther(sd *waitSide, far bool) func(*waitEnv, *waitResult, *waitScenario) {
+	return func(e *waitEnv, r *waitResult, sc *waitScenario) {
+		short := time.Now().Add(waitSep / 2)
+		if sd.kind == "Write" {
+			e.cs.SetReadDeadline(short)
+		} else {
+			e.cs.SetWriteDeadline(short)
+		}
+		if far {
+			sd.setDl(e, time.Now().Add(waitFar))
+		}
+		calls := waitStart(e, r, sc, sd, 1)
+		if calls == nil || !waitExpectBlocked(e, r, sd, calls, "before SetDeadline") {
+			return
+		}
+		dl := time.Now().Add(waitDl)
+		e.cs.SetDeadline(dl)
+		e.logf("SetDeadline -> %dms (other direction's own deadline expired at %dms, this direction: far=%v)",
+			dl.Sub(e.t0).Milliseconds(), short.Sub(e.t0).Milliseconds(), far)
+		waitExpectAll(e, r, sd, calls, "timeout", dl, dl.Add(waitMargin), "deadline-setdeadline-ignored:"+sd.kind,
+			"timeout-before-deadline:"+sd.kind, "the deadline set by SetDeadline while blocked (the other direction had its own deadline) expired")
 	}
 }
 
@@ -1133,11 +1164,22 @@ func waitCatalogue(thorough bool, rng *vrng) []*waitScenario {
 		}
 		add("deadline-cleared", sd.kind, 1, pair, waitScCleared(sd, 1))
 		add("deadline-cleared", sd.kind, 2, pair, waitScCleared(sd, 2))
-		// several callers parked under a deadline that is then extended
-		add("deadline-set-later", sd.kind, 2, pair, waitScDeadlineChange(sd, "set-later", 2))
+		// several callers parked while the deadline changes: every one of them follows the new deadline
+		// (extended: nobody early; none->set, earlier, past: nobody late)
+		for _, seq := range []string{"set-later", "none-then-set", "set-earlier", "set-past"} {
+			add("deadline-"+seq, sd.kind, 2, pair, waitScDeadlineChange(sd, seq, 2))
+		}
 		if thorough {
-			add("deadline-set-later", sd.kind, 3, pair, waitScDeadlineChange(sd, "set-later", 3))
-			add("deadline-set-earlier", sd.kind, 2, pair, waitScDeadlineChange(sd, "set-earlier", 2))
+			add("deadline-set-zero-set", sd.kind, 2, pair, waitScDeadlineChange(sd, "set-zero-set", 2))
+			for _, seq := range []string{"set-later", "none-then-set", "set-earlier", "set-zero-set", "set-past"} {
+				add("deadline-"+seq, sd.kind, 3, pair, waitScDeadlineChange(sd, seq, 3))
+			}
+			add("deadline-cleared", sd.kind, 3, pair, waitScCleared(sd, 3))
+		}
+		if sd.kind != "Accept" {
+			// SetDeadline while blocked, the two directions' deadlines differ
+			add("deadline-SetDeadline-other-direction-a", sd.kind, 1, pair, waitScSetDeadlineOther(sd, false))
+			add("deadline-SetDeadline-other-direction-b", sd.kind, 1, pair, waitScSetDeadlineOther(sd, true))
 		}
 	}
 	add("deadline-before-call-SetDeadline", "Read", 1, true, waitScDeadlineBefore(&waitReadSide, 1, true))
